@@ -91,3 +91,47 @@ Example c06_nonvacuous_commit :
                  OBeginRead 7%N; OBeginWrite; OMutData [1;2;4;5] ]%positive init in
   ok_commit_dur [1;2;4;5]%positive [10;12]%positive [] false true s = true /\ pinned s <> [] /\ wdfr s = [3%positive].
 Proof. vm_compute. repeat split; try reflexivity. discriminate. Qed.
+
+(* ======================================================================================================
+   bounded_storage (DESIGN C06 "no_leak ... corollary bounded_storage"): storage returns to pages(current)
+   once nothing holds old pages.  `quiet s` = invariant, no write transaction, no reader, no savepoint;
+   `qcommit Sd So` = begin_write; commit(Immediate, quick-repair off, post-commit free on) without data change
+   (Sd / So: system-tree pages of the committed root / after the epilogue, an oracle); `qok` = the side
+   conditions of that commit.  After THREE such commits every pending-free table is empty and the allocator
+   holds exactly the pages of the current data and system trees.  Three, not two: the first commit's epilogue
+   drains DATA_FREED under a non-durable id that holds its durable ancestor through the second commit (whose
+   own epilogue has nothing left to do); the third drains SYSTEM_FREED.  Definitions: coq/Txn/AllocRec.v. *)
+From RV Require Import Txn.AllocRec Txn.AllocRecDrainP.
+
+Theorem c06_bounded_storage : forall Sd1 So1 Sd2 So2 Sd3 So3 s, quiet s ->
+  let s1 := qcommit Sd1 So1 s in let s2 := qcommit Sd2 So2 s1 in let s3 := qcommit Sd3 So3 s2 in
+  qok Sd1 So1 s -> qok Sd2 So2 s1 -> qok Sd3 So3 s2 ->
+  NoDup (alloc s3) /\ (forall p, In p (alloc s3) <-> In p (vdata (lat s3) ++ vsys (lat s3))) /\
+  flat (dfreed s3) = [] /\ sfreed s3 = [] /\ ufreed s3 = [] /\ unpers s3 = [] /\ pend s3 = [] /\ pins s3 = [] /\
+  inw s3 = false /\ vdata (lat s3) = vdata (lat s).
+Proof. exact bounded_storage. Qed.
+
+(* after the first of them DATA_FREED and the unpersisted freed records are already empty *)
+Theorem c06_first_quiet_commit_drains_data : forall Sd So s, quiet s ->
+  flat (dfreed (qcommit Sd So s)) = [] /\ ufreed (qcommit Sd So s) = [] /\ vdata (lat (qcommit Sd So s)) = vdata (lat s).
+Proof. exact qcommit_A. Qed.
+
+(* ---- non-vacuity, and why three: after a non-durable commit (pending: an unpersisted freed record, a
+   SYSTEM_FREED entry, a pending non-durable id) the first quiet commit's epilogue runs and leaves a pending id,
+   the second still leaves the epilogue's SYSTEM_FREED entry, the third leaves exactly the current trees *)
+Definition c06_quiet_history : list op :=
+  [ OBeginWrite; OMutData [1;2;3]; OCommitDur [1;2;3] [10;11] [] false true;
+    OBeginWrite; OMutData [1;2;4]; OCommitNd [1;2;4] [10;12] ]%positive.
+
+Example c06_bounded_storage_nonvacuous :
+  let s := run c06_quiet_history init in
+  let s1 := qcommit [10;12]%positive [10;13]%positive s in
+  let s2 := qcommit [10;13]%positive [] s1 in
+  let s3 := qcommit [10;13]%positive [] s2 in
+  admissible init c06_quiet_history /\ inw s = false /\ pins s = [] /\
+  ufreed s = [(3%N, [3]%positive)] /\ sfreed s = [(3%N, [11]%positive)] /\ pend s = [(3%N, 2%N)] /\
+  qok [10;12]%positive [10;13]%positive s /\ qok [10;13]%positive [] s1 /\ qok [10;13]%positive [] s2 /\
+  pend s1 = [(5%N, 4%N)] /\ sfreed s1 = [(3%N, [11]%positive); (5%N, [12]%positive)] /\
+  pend s2 = [] /\ sfreed s2 = [(5%N, [12]%positive)] /\
+  sfreed s3 = [] /\ alloc s3 = [13; 4; 10; 1; 2]%positive /\ vdata (lat s3) = [1;2;4]%positive /\ vsys (lat s3) = [10;13]%positive.
+Proof. vm_compute. repeat split; reflexivity. Qed.
